@@ -55,7 +55,7 @@ func (ksh *KeyShareHandler) ConstructDecryptionKeyShares(
 	if len(identityPreimages) == 0 {
 		return nil, errors.New("cannot generate empty decryption key share")
 	}
-	if len(identityPreimages) > int(ksh.MaxNumKeysPerMessage) {
+	if uint64(len(identityPreimages)) > ksh.MaxNumKeysPerMessage {
 		return nil, errors.Errorf("too many decryption key shares for message (%d > %d)", len(identityPreimages), ksh.MaxNumKeysPerMessage)
 	}
 
